@@ -30,6 +30,10 @@ func hostileFrame(r *core.Rand) (ftype, flags int, sid int64, payload []byte, n 
 		ftype = 0
 		flags = core.Pick(r, 0, 0, 1, 8, 9)
 		payload = rndBytes(r, r.Range(0, 40))
+		if flags&8 != 0 && len(payload) > 0 && r.Chance(2, 3) {
+			// pad length around the payload size
+			payload[0] = byte(max(0, len(payload)-1+core.Pick(r, -1, 0, 1, 2)))
+		}
 	case 1: // DATA larger than the maximum frame size the client allows
 		ftype, n = 0, core.Pick(r, 16385, 20000, 70000)
 	case 2: // HEADERS with a garbage header block
